@@ -343,7 +343,8 @@ func runC19() int {
 		fam := strings.SplitN(scn, " ", 2)[0]
 		return clause + ":" + fam + ":" + scn
 	}
-	tot, code := exploreSharded(rep, "C19", c19Scenarios(u), pb, db, 4000, deadlineFor(6*time.Minute, 90*time.Minute), sigOf)
+	shardByBranch = true // a few scenarios (GetData with three paths) dominate: split every exploration tree
+	tot, code := exploreSharded(rep, "C19", c19Scenarios(u), pb, db, 4000, deadlineFor(6*time.Minute, 45*time.Minute), sigOf)
 	if code != 0 {
 		return code
 	}
